@@ -320,7 +320,7 @@ fn record(ev: &mut Ev, f: &OFacts) {
 }
 
 /// run on one flavour, classify
-fn judge<F: Fl>(
+pub fn judge_obs<F: Fl>(
     prop: &str,
     h: &ObsHistory,
     case: &serde_json::Value,
@@ -379,8 +379,8 @@ fn judge_flavours(
     out: &mut Outcome,
     nt: &dyn Fn(&OFacts) -> bool,
 ) {
-    let fs = if flv != Flv::Async { judge::<SyncFl>(prop, h, case, out, nt) } else { None };
-    let fa = if flv != Flv::Sync { judge::<AsyncFl>(prop, h, case, out, nt) } else { None };
+    let fs = if flv != Flv::Async { judge_obs::<SyncFl>(prop, h, case, out, nt) } else { None };
+    let fa = if flv != Flv::Sync { judge_obs::<AsyncFl>(prop, h, case, out, nt) } else { None };
     if let (Some(fs), Some(fa)) = (fs, fa) {
         // differential: the same calls give the same results on both flavours
         out.ev.count("flavour_differentials");
